@@ -274,7 +274,11 @@ Definition conv_value (id : N) (node : obj) : res N :=
     if o_hascpuset node then Ok (weight64 (o_cpuset node)) else Err EINVAL
   else Err EUB.  (* assert(0) *)
 
-(* hwloc__internal_memattr_set_value *)
+Definition count_inits (l : list imtg) : nat := fold_right (fun g n => (length (g_inits g) + n)%nat) O l.
+
+(* hwloc__internal_memattr_set_value.  The cache is invalidated when a target was created and
+   (fix c3717fc) when an initiator was appended: the new location was not checked against the
+   topology yet. *)
 Definition set_core (loaded objok : bool) (s : mstate) (id ty gp os : N) (il : option iloc) (v : N) : mstate * res unit :=
   match get_attr s id with
   | None => (s, Err EINVAL)
@@ -289,7 +293,8 @@ Definition set_core (loaded objok : bool) (s : mstate) (id ty gp os : N) (il : o
                         | None => Imtg (g_type g) (g_gp g) (g_os g) (g_inits g) v
                         end in
       let (tgs, created) := upsert_tg ty gp os f (a_tgs a1) in
-      (put_attr s id (Imattr (a_name a1) (a_flags a1) (a_conv a1) (if created then false else a_valid a1) tgs), Ok tt)
+      let grew := negb (Nat.eqb (count_inits tgs) (count_inits (a_tgs a1))) in
+      (put_attr s id (Imattr (a_name a1) (a_flags a1) (a_conv a1) (if created || grew then false else a_valid a1) tgs), Ok tt)
   end.
 
 (* hwloc_memattr_set_value *)
@@ -540,15 +545,22 @@ Definition xml_import_values (s : mstate) (id : N) (need : bool) (g : imtg) : ms
               (g_inits g) s
   else fst (set_core false false s id (g_type g) (g_gp g) MEMATTR_OS_NONE None (g_val g)).
 
+(* hwloc__xml_export_safestrdup: the exported name keeps only the bytes that are valid in the XML
+   output (HWLOC_XML_CHAR_VALID: 32..126, tab, newline, carriage return) *)
+Definition xml_char_valid (c : N) : bool :=
+  ((32 <=? c) && (c <=? 126)) || (c =? 9) || (c =? 10) || (c =? 13).
+Definition xml_safe_name (n : list N) : list N := filter xml_char_valid n.
+
 Definition xml_import_attr (s : mstate) (e : N * imattr) : mstate :=
   let (id, a) := e in
+  let name := xml_safe_name (a_name a) in
   if (id =? HWLOC_MEMATTR_ID_CAPACITY) || (id =? HWLOC_MEMATTR_ID_LOCALITY) then s
   else if (id <? HWLOC_MEMATTR_ID_MAX) && (match a_tgs a with [] => true | _ => false end) then s
   else
     let (s1, oid) :=
-      match get_by_name s (a_name a) with
+      match get_by_name s name with
       | Ok i => (s, match get_flags s i with Ok f => if f =? a_flags a then Some i else None | Err _ => None end)
-      | Err _ => match register s (a_name a) (a_flags a) with
+      | Err _ => match register s name (a_flags a) with
                  | (s', Ok i) => (s', Some i)
                  | (s', Err _) => (s', None)
                  end
